@@ -301,6 +301,23 @@ CHECKS["C06"] = dict(
     technique="Lean 4 theorem (stability of a conservative open-tree evaluator under all completions) + per-pair differential validation of evaluate() on open trees against the verified reference",
 )
 
+CHECKS["C07"] = dict(
+    category="proof",
+    text="The ANTLR parser, the emitter and ISLaUnparser are not modelled. Proved: the notion of 'the same constraint' with which the two formula "
+    "objects of a round trip are compared - equality of nameless forms over formulas with named tree / match-expression / numeric binders "
+    "(Alpha.alphaEq) - implies the same meaning under EVERY interpretation of the atoms and quantifier domains and in every environment "
+    "(roundtrip_same_meaning), so an accepted round trip cannot change the verdict on any tree of any grammar; the checker is reflexive and "
+    "acceptance is equality of the nameless data. Tie: parse -> unparse -> parse -> unparse on generated constraints in core syntax and in "
+    "simplified syntax (free nonterminals incl. <start>, XPath axes, infix / prefix SMT, numeric quantifiers, literals with quote / backslash / "
+    "newline / non-ASCII, match expressions); the re-parse must be accepted, equal by ISLa's == or by the verified checker, unparse to the same "
+    "text, and get the same verdicts from the verified reference evaluator on sampled trees.",
+    design_ref="DESIGN.md section 7 C07",
+    note="PARTIAL: concrete-syntax printing and parsing are validated per generated constraint (round trip), not proved; atoms are compared by "
+    "normalised text, quantifier types and match-expression shapes as opaque tags. Known finding: negated SMT atoms are re-normalised by Z3 "
+    "on every parse (equivalent atom, different text).",
+    technique="Lean 4 theorem (alpha-equivalence of the two parsed formulas implies equal meaning under all interpretations) + round-trip differential on generated constraints",
+)
+
 NOT_APPLICABLE = {
     "C22": "reproducibility across fresh processes depends on hash randomisation, Z3 seeds/timeouts and wall-clock time; a functional Lean model would prove determinism vacuously and no executable model can exhibit the failure (DESIGN.md section 8)",
 }
